@@ -23,6 +23,7 @@ func checkC13(c *Check, a *Anchors) {
 	c13OutcomeTypes(c, a)
 	c13LoggerPrompt(c, a)
 	c13EnumTotal(c, a)
+	c03ExitCodeMap(c, a) // "the exit status is the documented class (206, 207, 205, 202)": constants equal the documented numbers
 	c03StopOnError(c, a) // a guard refusal inside a nested call is not an exit status: the caller must fail too, whatever its ignore_error
 }
 
